@@ -39,7 +39,8 @@ TEXT = {
             "tree (parse_unparse); printing the accepted tree gives back the tokens up to what the tree does not keep "
             "(unparse_parse); the accepted tree is well formed (parse_wf); the block-stack pop never panics "
             "(parseTokens_no_panic); the only errors are objSyntax / notInside / unterminated, located at the first offending "
-            "token resp. the innermost open tag (parse_result_cases, first_error_*, unterminated_*). End to end, on source bytes and "
+            "token resp. the innermost open tag (parse_result_cases; error_at_first_bad_token, first_error_obj, first_error_notInside; "
+            "unterminated_comment / _raw / _block, unterminated_decompose, unterminated_iff). End to end, on source bytes and "
             "about the whole pipeline `run` (Proofs.C06E2E, for every value layer, file system, fuel and environment; toks = the "
             "token list of the source): the token list is not derivable in the nesting grammar exactly when parsing returns an "
             "error, which is notInside / unterminated / an object's syntax error, is the result of `run` (so nothing is rendered) "
@@ -48,8 +49,10 @@ TEXT = {
             "derived tree (run_of_derives); a compile error notInside/unterminated implies that the tokens are not well nested, "
             "since the compile phase never produces these messages (nesting_error_implies_not_well_nested); and for sources all "
             "of whose objects hold expressions, not well nested <=> compilation (hence run) fails with notInside or unterminated "
-            "(not_well_nested_iff_nesting_error). These assume that no object token has arguments outside the expression-lexer "
-            "model (negative-zero literal), where the model answers `unmodelled` before parsing. The model is compared with "
+            "(not_well_nested_iff_nesting_error). run_parse_error, run_of_derives and run_rejects_iff_not_derivable assume that no object "
+            "token has arguments outside the expression-lexer model (negative-zero literal), where the model answers `unmodelled` "
+            "before parsing; nesting_error_implies_not_well_nested has no side condition, and in not_well_nested_iff_nesting_error "
+            "the condition follows from the hypothesis on the objects. The model is compared with "
             "cfg.Parse on exhaustive token sequences and random nested templates each run; an independent recogniser is "
             "evaluated on the real parser in every case, a reference expansion on the real renderer for the accepted enumerated "
             "and unedited random templates, and 'rejected renders nothing' on a sample (every 8th) of the rejected ones.",
@@ -57,5 +60,6 @@ TEXT = {
     "note": NOTE + "The round trip is stated modulo canon (comment blocks dropped; raw interiors as text tokens of equal source; "
             "end tags and trim markers without line/args/source), which is exactly the information the Go AST does not keep.",
     "technique": "Lean 4 proof (derivation-following for soundness, zipper invariant for completeness) + model/implementation "
-                 "correspondence + independent oracle",
+                 "correspondence + independent oracle + the grammar table re-extracted from tags/standard_tags.go by translator T1 "
+                 "on every run and checked by `decide` (grammar_is_standard, part of the Lean build)",
 }
